@@ -100,11 +100,6 @@ theorem get_after_set_frame (c c' : Cont) (t t' : PyObj) (o : PyObj) (r : Bool) 
   apply get_of_lookup_str
   rw [ht, run_lookup_other c' ops _ hops, e, lookup_dictSet_self]
 
-theorem r35 : renderInt 35 = [51, 53] := natDigits_two 35 (by omega) (by omega)
-theorem r1 : renderInt 1 = [49] := natDigits_one 1 (by omega)
-theorem il35 : intLike [51, 53] = true := r35 ▸ intLike_renderInt 35 (small_lt_limit _ (by decide))
-theorem il1 : intLike [49] = true := r1 ▸ intLike_renderInt 1 (small_lt_limit _ (by decide))
-
 example : get (run [] [.set (.int 35) (.obj (.int (-7))) false, .set (.int 1) (.obj (.str [97])) false])
     (.ftag [51, 53]) (.cls .tagNotFound) = .ok (.str (PyObj.int (-7)).pyStr) := by
   have h : Model.Container.set [] (.int 35) (.obj (.int (-7))) false
@@ -336,11 +331,13 @@ theorem accessor_error_kinds (c : Cont) (t : PyObj) :
   ⟨accessors_missing c t, fun s => accessors_plain c t s, fun items => accessors_group c t items⟩
 
 /-- Sentence of the property that fails: `add_group` reports misuse by the documented (library) errors.
-On a tag that holds a plain value it raises AttributeError. -/
+On a tag that holds a plain value (str or class object) it raises AttributeError. -/
 def add_group_errors_full : Prop :=
   ∀ (c : Cont) (t : PyObj) (g : DItem) (i : Int) (k : Kind), addGroup c t g i = .error k →
     k = .fixMessageError ∨ k = .duplicated
 
+/-- proved part: on a missing tag or a group tag the only errors are those of converting the item
+(FIXMessageError for a non-dict / non-container, or what `FIXContainer(dict)` raises) -/
 theorem add_group_errors_partial (c : Cont) (t : PyObj) (g : DItem) (i : Int) (k : Kind)
     (h : addGroup c t g i = .error k)
     (hplain : lookup t.pyStr c = none ∨ ∃ gs, lookup t.pyStr c = some (.group gs)) :
